@@ -166,6 +166,32 @@ public:
       // between (it becomes the last argument itself)
       // (and not together with an override, whose first use is appended to the source)
       const bool  want_override = wl.chance( 1, 3) && recipe.gets( "constraint").empty();
+      // "--" (the words behind it are values even if they start with a dash) is
+      // in effect up to the end of the argument list it stands in: a file line, the
+      // environment variable, argv. Only the very last item of the abstract
+      // command line may contain it, then nothing can follow it on argv either.
+      {
+         const bool  allowed = !want_override && !recipes::has( recipe, "R12") && !recipes::has( recipe, "R13")
+                               && plan.gets( "file_via") != "arg" && !plan.has( "nest") && !plan.has( "env_names_file");
+         size_t  keep = ~size_t( 0);
+         for (size_t k = 0; k < made.size(); ++k)
+         {
+            Json&   w = made[ k].second;
+            size_t  at = ~size_t( 0);
+            for (size_t j = 0; j < w.size(); ++j) if (w.at( j).s() == "--") { at = j; break; }
+            if (at == ~size_t( 0)) continue;
+            if (allowed && keep == ~size_t( 0)) { keep = k; continue; }
+            Json  cut = Json::array();
+            for (size_t j = 0; j < at; ++j) cut.push( w.at( j));
+            w = cut;
+         }
+         if (keep != ~size_t( 0) && keep + 1 != made.size())
+         {
+            auto  item = made[ keep];
+            made.erase( made.begin() + static_cast< long>( keep));
+            made.push_back( item);
+         }
+      }
       if (!want_override && recipe.geti( "multi", 0) != 0 && plan.gets( "file_via") != "arg" && !plan.has( "nest"))
       {
          for (size_t k = 0; k < made.size(); ++k)
@@ -174,7 +200,11 @@ public:
             const Json&     w = made[ k].second;
             // (an argument with a cardinality counts only the values that come from argv)
             if (!a.multi || a.once || w.size() < 3 || w.at( 0).s().empty() || w.at( 0).s()[ 0] != '-' || !wl.chance( 1, 2)) continue;
-            const size_t  cut = 2 + static_cast< size_t>( wl.below( w.size() - 2));
+            // ("--" stays in front of the dashed values it announces: its effect ends with the line)
+            size_t  last_cut = w.size() - 1;
+            for (size_t j = 0; j < w.size(); ++j) if (w.at( j).s() == "--") { last_cut = j; break; }
+            if (last_cut < 2) continue;
+            const size_t  cut = 2 + static_cast< size_t>( wl.below( last_cut - 1));
             Json  head = Json::array(), tail = Json::array();
             for (size_t j = 0; j < w.size(); ++j) (j < cut ? head : tail).push( w.at( j));
             made[ k].second = head;
